@@ -112,7 +112,12 @@ func c09Interior(t *core.Tape, e c09Enzyme, f, r string, maxLen int) string {
 		if try > 3 {
 			lo = 1
 		}
-		s := randDNA(t, t.Range(lo, maxLen))
+		var s string
+		if try == 0 && t.Draw(8) == 7 {
+			s = randDNAIUPAC(t, t.Range(1, maxLen)) // degenerate bases: NNK libraries, N barcodes
+		} else {
+			s = randDNA(t, t.Range(lo, maxLen))
+		}
 		if clean(s) {
 			return s
 		}
